@@ -1,5 +1,6 @@
 """C12 - persisted objects survive serialization (structural part)."""
 from engine import *
+import ordimpls
 import re
 import tlv
 
@@ -564,3 +565,4 @@ def r12k(F):
 	return out
 
 RULES.append(('12.k', 'TLV enum legacy getters select on the variant only', r12k))
+RULES.append(('12.o', 'hand-written eq / cmp / partial_cmp / hash impls (the library\'s own equality of monitors, claim packages, commitment transactions, graph entries): same field on both sides, reviewed direction, no reviewed key lost, hash within eq (rules/ordimpls.py)', lambda F: ordimpls.for_property(F, 'C12', '12.o')))
